@@ -193,6 +193,67 @@ Proof.
   - simpl. discriminate.
 Qed.
 
+(* ------------------------------------------------------------------ the 1 x 1 grid *)
+(* on a 1 x 1 grid, when the first sample is closer than r to all four corners of the domain, no candidate at
+   distance >= r from it lies in the domain: every iteration ends in NoChange and the loop never exits *)
+Definition near_all_corners (sc : Z) (x0 : pt) : Prop :=
+  d2 x0 (0, 0) < sc * sc /\ d2 x0 (sc, 0) < sc * sc /\ d2 x0 (0, sc) < sc * sc /\ d2 x0 (sc, sc) < sc * sc.
+
+Lemma sq_between : forall a lo hi p, lo <= p <= hi ->
+  (p - a) * (p - a) <= (lo - a) * (lo - a) \/ (p - a) * (p - a) <= (hi - a) * (hi - a).
+Proof. intros a lo hi p H. destruct (Z_le_gt_dec p a); [left|right]; nia. Qed.
+
+Lemma unit_domain_close : forall sc x0 p, 0 < sc -> near_all_corners sc x0 ->
+  out_of_domain sc 1 1 p = false -> d2 p x0 < sc * sc.
+Proof.
+  intros sc [a b] [px py] Hsc (H00 & H10 & H01 & H11) Ho.
+  apply out_of_domain_false in Ho. simpl in Ho. unfold d2 in *. simpl in *.
+  destruct Ho as [Hx Hy].
+  destruct (sq_between a 0 sc px) as [Ex|Ex]; [lia| |];
+  destruct (sq_between b 0 sc py) as [Ey|Ey]; try lia; nia.
+Qed.
+
+Lemma inner_all_outside : forall sc nx ny ss left i cands,
+  (forall c, In c cands -> out_of_domain sc nx ny c = true) ->
+  inner sc nx ny ss i left cands = NoChange.
+Proof.
+  intros sc nx ny ss left. induction left as [|left IH]; intros i cands H; simpl; [reflexivity|].
+  destruct cands as [|x1 rest]; [reflexivity|].
+  rewrite (H x1 (or_introl eq_refl)). apply IH. intros c Hc. apply H. now right.
+Qed.
+
+Lemma step_all_outside : forall sc nx ny k st it,
+  (forall c, In c (snd it) -> out_of_domain sc nx ny c = true) ->
+  step sc nx ny k st it = None \/ step sc nx ny k st it = Some (st, NoChange).
+Proof.
+  intros sc nx ny k st [idx cands] H. unfold step. simpl in H.
+  destruct (mem_nat idx (active st)); [right|now left].
+  now rewrite inner_all_outside.
+Qed.
+
+Theorem bluenoise_unit_grid_never_finishes : forall sc k x0 its st,
+  0 < sc -> near_all_corners sc x0 ->
+  (forall it c, In it its -> In c (snd it) -> sc * sc <= d2 c x0) ->
+  run sc 1 1 k (init x0) its = Some st ->
+  st = init x0 /\ finished st = false.
+Proof.
+  intros sc k x0 its st Hsc Hnear Hc H.
+  assert (Hrt : forall its, (forall it c, In it its -> In c (snd it) -> sc * sc <= d2 c x0) ->
+            forall r, run_trace sc 1 1 k (init x0) its = Some r -> fst r = init x0).
+  { induction its0 as [|it rest IH]; intros Hcs r Hr; simpl in Hr.
+    - inversion Hr. reflexivity.
+    - destruct (step_all_outside sc 1 1 k (init x0) it) as [E|E].
+      + intros c Hin. destruct (out_of_domain sc 1 1 c) eqn:Eo; [reflexivity|].
+        exfalso. assert (Hd := unit_domain_close sc x0 c Hsc Hnear Eo).
+        specialize (Hcs it c (or_introl eq_refl) Hin). lia.
+      + rewrite E in Hr. discriminate.
+      + rewrite E in Hr.
+        destruct (run_trace sc 1 1 k (init x0) rest) as [[st2 os]|] eqn:Er; [|discriminate].
+        inversion Hr; subst r. simpl. apply (IH (fun it c Hi Hc' => Hcs it c (or_intror Hi) Hc') (st2, os) eq_refl). }
+  unfold run in H. destruct (run_trace sc 1 1 k (init x0) its) as [[st2 os]|] eqn:Er; [|discriminate].
+  inversion H; subst st2. specialize (Hrt its Hc _ Er). simpl in Hrt. subst st. split; reflexivity.
+Qed.
+
 (* ------------------------------------------------------------------ hyperuniform *)
 (* ★ hyperuniform crop: whatever the kicked points are, every returned point is strictly inside the
    unit square *)
